@@ -135,3 +135,38 @@ def exits_do_not_swallow(ctx: Ctx, rule: str) -> None:
                       f"{m.qname} returns `{norm(bad[0].value) if bad else ''}`: a truthy result of __exit__ suppresses the exception raised inside the with block "
                       "(CrcError / PasswordRequired / write errors vanish and the caller sees success)", construct=f"{cls.name}.__exit__ result")
     ctx.floor(rule, n, 2, "__exit__ methods in the package")
+
+
+def mode_guard_consts(f: Func, node: ast.AST) -> set:
+    """mode constants under which `node` runs: from the enclosing if-tests (true arms) of the forms `mode == "w"`, `"w" in self.mode`,
+    `mode in ("w", "x")` and disjunctions of those (an `or` whose disjuncts are ALL mode tests contributes every constant)."""
+    from ..model import parent_map
+    pm = parent_map(f.node)
+
+    def consts_of(test: ast.AST):
+        if isinstance(test, ast.BoolOp) and isinstance(test.op, ast.Or):
+            parts = [consts_of(v) for v in test.values]
+            return set().union(*parts) if all(p is not None for p in parts) else None
+        if isinstance(test, ast.Compare) and len(test.ops) == 1:
+            l, r = test.left, test.comparators[0]
+            if isinstance(test.ops[0], ast.Eq) and "mode" in norm(l) and isinstance(r, ast.Constant) and isinstance(r.value, str):
+                return {r.value}
+            if isinstance(test.ops[0], ast.In) and isinstance(l, ast.Constant) and isinstance(l.value, str) and "mode" in norm(r):
+                return {l.value}
+            if isinstance(test.ops[0], ast.In) and "mode" in norm(l) and isinstance(r, (ast.Tuple, ast.List, ast.Set)):
+                vals = {e.value for e in r.elts if isinstance(e, ast.Constant) and isinstance(e.value, str)}
+                return vals or None
+        return None
+
+    out = set()
+    cur = node
+    while cur in pm:
+        par = pm[cur]
+        if isinstance(par, ast.If) and any(cur is x for x in par.body):
+            tests = par.test.values if isinstance(par.test, ast.BoolOp) and isinstance(par.test.op, ast.And) else [par.test]
+            for t in tests:
+                c = consts_of(t)
+                if c:
+                    out |= c
+        cur = par
+    return out
